@@ -61,7 +61,8 @@ class Ctx:
                 e2 = Engine(ctx.idx, enums=ctx.enums, src_root=ctx.src, loop_bound=1, max_paths=24, timeout=20)
                 e2.auto_inline = lambda engine, callee, caller: pick(callee, caller, stack + [path])
                 ps = e2.explore(path)
-                good = 0 < len(ps) <= 12 and all(p.status in ("return", "panic") for p in ps)
+                # a helper holding a loop ends some stand-alone paths at the loop bound ("cut"): still inlinable, the caller's own bound applies
+                good = 0 < len(ps) <= 12 and all(p.status in ("return", "panic", "cut") for p in ps) and any(p.status == "return" for p in ps)
             except Exception:
                 good = False
             ok[path] = good
